@@ -177,6 +177,14 @@ class GSum(object):
         return lo, hi
 
 
+_PIN = []
+
+
+def pin(*ts):
+    """keep z3 terms alive whose AST id is used as a cache key (z3 re-uses the ids of freed terms)"""
+    _PIN.extend(ts)
+
+
 def gs_indicator(g, w, coeff=1):
     """[g]*coeff as GSum; g z3 Bool"""
     mask = (1 << w) - 1
